@@ -50,6 +50,16 @@ def run(chk, repo, tier):
     chk.rule("C04.R2", "pairing arguments are subgroup-checked (keys also non-identity); accepting exits carry all gates", 11)
     chk.rule("C04.R3", "length predicates accept exactly bytes of length 48/96 and dominate every byte decoder call", 6 + 11)
     chk.rule("C04.R4", "KeyValidate returns True only for a decoded, non-identity, subgroup point", 3)
+    chk.rule("C04.R5", "'not the canonical encoding ⇒ False' rests on the decoders refusing every non-canonical word: the decision tables "
+                       "of decompress_G1/G2 (C11.R1) re-stated", 24 + 70)
+    from . import C11
+    from ..report import SubCheck
+    sub = SubCheck()
+    C11.run(sub, repo, tier)
+    known = {(f["rule"], f["construct"], f["key"]) for f in chk.known.get("findings", []) if f["property"] == "C11"}
+    for rule_, construct, key, ok, detail, where in sub.obs:
+        if rule_ == "C11.R1" and "decompress_" in construct and (rule_, construct, key) not in known:
+            chk.ob("C04.R5", construct, f"canonical decoding [{rule_}] {key}", ok, detail, where)
     chk.not_decided += ["implicit exceptions of builtins outside the modelled list (bytes +, len, set of bytes, zip)",
                         "type-guard raises inside field classes are assumed dead for well-typed internal callers"]
     chk.assumptions += ["inputs are bytes / sequences of bytes (the isinstance conjunct of the length predicates is checked by R3)",
